@@ -8,6 +8,7 @@ import (
 	"sort"
 	"strings"
 	"sync"
+	"sync/atomic"
 	"time"
 
 	header "github.com/celestiaorg/go-header"
@@ -562,6 +563,213 @@ func tailRaceCase(prop string, t0, to, n int, after bool) {
 		reached, errs(derr), errs(serr), hd, tl, strings.Join(stored, ","))
 }
 
+// headMonitor polls Head()/Height() from its own goroutine and remembers the first decrease it sees.
+type headMonitor struct {
+	stop    atomic.Bool
+	done    chan struct{}
+	regress atomic.Value
+}
+
+func watchHead(st *store.Store[*vhdr.Header]) *headMonitor {
+	m := &headMonitor{done: make(chan struct{})}
+	go func() {
+		defer close(m.done)
+		ctx := context.Background()
+		var maxHead, maxHeight uint64
+		for !m.stop.Load() {
+			if h, err := st.Head(ctx); err == nil {
+				if h.H < maxHead && m.regress.Load() == nil {
+					m.regress.Store(fmt.Sprintf("Head:%d->%d", maxHead, h.H))
+				}
+				if h.H > maxHead {
+					maxHead = h.H
+				}
+			}
+			hh := st.Height()
+			if hh < maxHeight && m.regress.Load() == nil {
+				m.regress.Store(fmt.Sprintf("Height:%d->%d", maxHeight, hh))
+			}
+			if hh > maxHeight {
+				maxHeight = hh
+			}
+		}
+	}()
+	return m
+}
+
+func (m *headMonitor) finish() string {
+	m.stop.Store(true)
+	<-m.done
+	if v := m.regress.Load(); v != nil {
+		return v.(string)
+	}
+	return "-"
+}
+
+// boundaryCase: a tail-side DeleteRange(1, n) right up to the head (the head becomes the tail as well) while
+// appends race at the head. The deleter is parked at its first DIRECT datastore write after the deletes (if it
+// makes one), appends n+1..n+k land, then it goes on. Head()/Height() never decrease, and the end state is the
+// one of a sequential execution. pendingOnly: nothing was flushed before (big batch).
+func boundaryCase(prop string, n, k int, pendingOnly bool, gateKey string) {
+	ctx := context.Background()
+	chain := vhdr.Chain("A", n+k, time.Now().Add(-time.Hour).UnixNano(), 1e9, 0)
+	core := memds.NewCore()
+	batch := 2
+	if pendingOnly {
+		batch = 64
+	}
+	st, err := store.NewStore[*vhdr.Header](&memds.Plain{C: core}, store.WithWriteBatchSize(batch))
+	if err != nil {
+		panic(err)
+	}
+	if err := st.Start(ctx); err != nil {
+		panic(err)
+	}
+	defer st.Stop(ctx) //nolint:errcheck
+	_ = st.Append(ctx, chain[:n]...)
+	_ = st.Sync(ctx)
+	mon := watchHead(st)
+	parked, release := make(chan struct{}), make(chan struct{})
+	var fired sync.Once
+	var deleting atomic.Bool
+	core.WriteGate = func(w memds.Write) {
+		// a direct (non-batch) write of a pointer key by the deleter, after it removed the headers
+		if !deleting.Load() || w.Batch {
+			return
+		}
+		for _, o := range w.Ops {
+			// the head pointer (if the deleter rewrites it: between its read of Head and the publication); in a
+			// second variant the tail pointer (before it reads Head)
+			if o.Val != nil && strings.HasSuffix(o.Key, gateKey) {
+				fired.Do(func() { close(parked); <-release })
+			}
+		}
+	}
+	derr := make(chan error, 1)
+	deleting.Store(true)
+	go func() {
+		c, cancel := context.WithTimeout(ctx, 5*time.Second)
+		defer cancel()
+		derr <- st.DeleteRange(c, 1, uint64(n))
+	}()
+	was := "no"
+	var de error
+	finished := false
+	select {
+	case <-parked:
+		was = "yes"
+	case de = <-derr:
+		finished = true
+	case <-time.After(3 * time.Second):
+	}
+	deleting.Store(false)
+	// racing appends at the head
+	_ = st.Append(ctx, chain[n:]...)
+	sctx, cancel := context.WithTimeout(ctx, 2*time.Second)
+	_ = st.Sync(sctx)
+	cancel()
+	midHead := uint64(0)
+	if h, err := st.Head(ctx); err == nil {
+		midHead = h.H
+	}
+	close(release)
+	if !finished {
+		select {
+		case de = <-derr:
+		case <-time.After(5 * time.Second):
+			de = errors.New("hang")
+		}
+	}
+	core.WriteGate = nil
+	time.Sleep(2 * time.Millisecond)
+	hd, tl := uint64(0), uint64(0)
+	if h, err := st.Head(ctx); err == nil {
+		hd = h.H
+	}
+	if h, err := st.Tail(ctx); err == nil {
+		tl = h.H
+	}
+	reg := mon.finish()
+	var stored []string
+	for h := 1; h <= n+k; h++ {
+		if x, err := st.GetByHeight(cancelled, uint64(h)); err == nil && x.H == uint64(h) {
+			stored = append(stored, itoa(h))
+		}
+	}
+	emit("%s kind=boundary n=%d k=%d pendingonly=%v gate=%s => parked=%s delete=%s midhead=%d head=%d tail=%d regress=%s stored=%s", prop, n, k, pendingOnly, gateKey,
+		was, errs(de), midHead, hd, tl, reg, strings.Join(stored, ","))
+}
+
+// tornCase: DeleteRange(1,to) over headers that are still only pending; the deleter's look-up of the new tail is
+// parked holding its datastore answer while appends fill the batch and the flush loop commits and resets pending.
+func tornCase(prop string, n, to, more, batch int) {
+	ctx := context.Background()
+	chain := vhdr.Chain("A", n+more, time.Now().Add(-time.Hour).UnixNano(), 1e9, 0)
+	core := memds.NewCore()
+	st, err := store.NewStore[*vhdr.Header](&memds.Plain{C: core}, store.WithWriteBatchSize(batch))
+	if err != nil {
+		panic(err)
+	}
+	if err := st.Start(ctx); err != nil {
+		panic(err)
+	}
+	defer st.Stop(ctx) //nolint:errcheck
+	_ = st.Append(ctx, chain[:n]...)
+	_ = st.Sync(ctx)
+	parked, release := make(chan struct{}), make(chan struct{})
+	var fired sync.Once
+	key := "/" + itoa(to)
+	core.GetGateAfter = func(k string, _ bool) {
+		if strings.HasSuffix(k, key) {
+			fired.Do(func() { close(parked); <-release })
+		}
+	}
+	derr := make(chan error, 1)
+	go func() {
+		c, cancel := context.WithTimeout(ctx, 5*time.Second)
+		defer cancel()
+		derr <- st.DeleteRange(c, 1, uint64(to))
+	}()
+	was := "no"
+	var de error
+	finished := false
+	select {
+	case <-parked:
+		was = "yes"
+	case de = <-derr:
+		finished = true
+	case <-time.After(3 * time.Second):
+	}
+	_ = st.Append(ctx, chain[n:]...)
+	sctx, cancel := context.WithTimeout(ctx, 2*time.Second)
+	_ = st.Sync(sctx)
+	cancel()
+	close(release)
+	if !finished {
+		select {
+		case de = <-derr:
+		case <-time.After(5 * time.Second):
+			de = errors.New("hang")
+		}
+	}
+	core.GetGateAfter = nil
+	hd, tl := uint64(0), uint64(0)
+	if h, err := st.Head(ctx); err == nil {
+		hd = h.H
+	}
+	if h, err := st.Tail(ctx); err == nil {
+		tl = h.H
+	}
+	var stored []string
+	for h := 1; h <= n+more; h++ {
+		if x, err := st.GetByHeight(cancelled, uint64(h)); err == nil && x.H == uint64(h) {
+			stored = append(stored, itoa(h))
+		}
+	}
+	emit("%s kind=torn n=%d to=%d more=%d batch=%d => parked=%s delete=%s head=%d tail=%d stored=%s", prop, n, to, more, batch,
+		was, errs(de), hd, tl, strings.Join(stored, ","))
+}
+
 func errs(err error) string {
 	if err != nil {
 		return "err"
@@ -575,6 +783,14 @@ func runConc(prop, tier string, r *rng) {
 			tailRaceCase(prop, c[0], c[1], c[2], false)
 			tailRaceCase(prop, c[0], c[1], c[2], true)
 		}
+		for _, pend := range []bool{true, false} {
+			boundaryCase(prop, 6, 3, pend, "/head")
+			boundaryCase(prop, 6, 3, pend, "/tail")
+			boundaryCase(prop, 9, 1, pend, "/head")
+		}
+		tornCase(prop, 6, 4, 5, 8)
+		tornCase(prop, 5, 3, 6, 8)
+		tornCase(prop, 10, 7, 3, 12)
 		for _, nb := range []int{2, 3, 5, 9} {
 			syncDrainCase(prop, nb)
 		}
